@@ -1,8 +1,8 @@
 (* C11 -- Binary-to-text and wire codecs are exact inverses on their whole domain.
    Statements only; every proof is [exact <lemma>] with Print Assumptions beneath. *)
 From Coq Require Import NArith List.
-From BU Require Import Base.Exn Base.Bytes Gen.Consts Model.Base58.
-From BU Require Lemmas.Base58 Lemmas.ConstsOk.
+From BU Require Import Base.Exn Base.Bytes Gen.Consts Model.Base58 Model.Base58Xmr Model.Codecs.
+From BU Require Lemmas.Base58 Lemmas.ConstsOk Lemmas.XmrConstsOk.
 Import ListNotations.
 Open Scope N_scope.
 
@@ -52,3 +52,43 @@ Proof.
   - exact (Lemmas.Base58.check_decode_encode _ _ _ sha ConstsOk.b58_alph_xrp_nodup ConstsOk.b58_alph_xrp_len ConstsOk.b58_radix_ge2 H1 H2 ConstsOk.b58_cklen_le b Hb).
 Qed.
 Print Assumptions b58check_roundtrip.
+
+(* ------------------------------------------------------------------ Monero block Base58 *)
+
+(* BLOCK_ENC_BYTE_LENS[d] is the least e with 58^e >= 256^d, for every row d = 0..8 *)
+Theorem xmr_table_ok : forall d e, nth_error xmr_block_enc_lens d = Some e ->
+  (d <= xmr_block_dec_max)%nat /\
+  256 ^ N.of_nat d <= b58_radix ^ N.of_nat e /\
+  (forall e', (e' < e)%nat -> b58_radix ^ N.of_nat e' < 256 ^ N.of_nat d).
+Proof. exact XmrConstsOk.xmr_table_ok. Qed.
+Print Assumptions xmr_table_ok.
+
+Example xmr_table_rows : exists e, nth_error xmr_block_enc_lens xmr_block_dec_max = Some e.
+Proof. exact XmrConstsOk.xmr_table_rows. Qed.
+Print Assumptions xmr_table_rows.
+
+Theorem xmr_decode_encode : forall b, bytes_ok b ->
+  exists s, Codecs.xmr_encode b = Ok s /\ Codecs.xmr_decode s = Ok b.
+Proof. exact XmrConstsOk.xmr_decode_encode. Qed.
+Print Assumptions xmr_decode_encode.
+
+(* block lemma, for EVERY block-width string (not only encoder output): the Base58 decoding has at
+   least d bytes, i.e. the start of __UnPad's slice is never negative *)
+Theorem xmr_block_dec_length : forall s d e dec, nth_error xmr_block_enc_lens d = Some e -> length s = e ->
+  Codecs.xmr_b58dec s = Ok dec -> (d <= length dec)%nat.
+Proof. exact XmrConstsOk.xmr_block_dec_length. Qed.
+Print Assumptions xmr_block_dec_length.
+
+(* Full-strength canonicity  [forall s b, decode s = Ok b -> encode b = Ok s]  is FALSE of the code
+   (defect F2, belongs to property C10): *)
+Theorem xmr_canonical_refuted : exists s b, Codecs.xmr_decode s = Ok b /\ Codecs.xmr_encode b <> Ok s.
+Proof. exact XmrConstsOk.xmr_canonical_refuted. Qed.
+Print Assumptions xmr_canonical_refuted.
+
+(* what does hold, exactly: a block re-encodes to itself iff its value fits the bytes kept *)
+Theorem xmr_block_canonical_iff : forall s d e dec v,
+  nth_error xmr_block_enc_lens d = Some e -> length s = e ->
+  Codecs.xmr_b58dec s = Ok dec -> Codecs.xmr_block_value s = Ok v ->
+  (Codecs.xmr_pad e (Codecs.xmr_b58enc (Base58Xmr.unpad d dec)) = s <-> v < 256 ^ N.of_nat d).
+Proof. exact XmrConstsOk.xmr_block_canonical_iff. Qed.
+Print Assumptions xmr_block_canonical_iff.
